@@ -481,6 +481,19 @@ def work(chunk_id, payload):
                 "outcome_fault_in_error_path", 0) + 1
         elif failed:
             cnt["outcome_clean_failure"] = cnt.get("outcome_clean_failure", 0) + 1
+            # one line per failing call and object (C11's clause, here
+            # under an allocation failure): vnacal_apply legitimately ends
+            # with one line from the result object and one from the vnacal_t
+            tags = [c_[2] if len(c_) > 2 else "" for c_ in (fe.get("cb") or [])
+                    if c_[0] != "WARNING"]
+            if len(tags) != len(set(tags)):
+                part["violations"].append(dict(
+                    key="%s:multiple-error-callbacks:%s" % (PROP, fe["op"]),
+                    desc="allocation %d (%s) failed inside %s: the failure "
+                         "was reported more than once through the same "
+                         "object's error function: %s" % (
+                             k, site, fe["op"], fe.get("cb")),
+                    script=ctext))
             eno = fe.get("errno")
             if isinstance(fe.get("out"), dict) and "set_errno" in fe["out"] \
                     and fe["out"].get("set_rc") == -1:
